@@ -416,15 +416,23 @@ func MulticodeDecode(s []byte) *DenseGraph {
 func MulticodeDecodeMultiple(s []byte) []*DenseGraph {
 	graphs := make([]*DenseGraph, 0)
 	startOfGraph := 0
-	var numberOfVerticesLeft byte
+	//The number of adjacency lists of the current graph which are still to be terminated by a 0. A graph on n vertices has n - 1 lists.
+	numberOfListsLeft := 0
 	for i := 0; i < len(s); i++ {
-		if numberOfVerticesLeft == 0 {
-			numberOfVerticesLeft = s[i] - 1
+		if numberOfListsLeft == 0 {
+			//s[i] is the number of vertices of the next graph.
 			startOfGraph = i
+			if s[i] <= 1 {
+				//There are no adjacency lists.
+				graphs = append(graphs, MulticodeDecode(s[i:i+1]))
+				continue
+			}
+			numberOfListsLeft = int(s[i]) - 1
+			continue
 		}
 		if s[i] == 0 {
-			numberOfVerticesLeft--
-			if numberOfVerticesLeft == 0 {
+			numberOfListsLeft--
+			if numberOfListsLeft == 0 {
 				graphs = append(graphs, MulticodeDecode(s[startOfGraph:i+1]))
 			}
 		}
